@@ -559,6 +559,28 @@ impl<'ast> Visit<'ast> for MutSelfPass {
     fn visit_impl_item_fn(&mut self, f: &'ast syn::ImplItemFn) { self.handle(&f.sig, &f.block); }
 }
 
+// ---------------------------------------------------------------- N19 `|_|`
+
+/// `|_| e`  ->  `|_verif_unused_k| e`  (Verus: closure parameters must be variables).  A named, unused binding:
+/// the value is dropped at the end of the closure body instead of at once, which only differs for `Drop` types
+/// with observable effects — closure parameters ignored with `_` in the code under contract are references or `Copy`.
+struct WildClosureParamPass {
+    edits: Vec<Edit>,
+}
+impl<'ast> Visit<'ast> for WildClosureParamPass {
+    fn visit_expr_closure(&mut self, c: &'ast syn::ExprClosure) {
+        for inp in c.inputs.iter() {
+            let pat = match inp { syn::Pat::Type(t) => &*t.pat, other => other };
+            if let syn::Pat::Wild(w) = pat {
+                let r = range(w.underscore_token.span());
+                let k = self.edits.len();
+                self.edits.push(Edit { start: r.start, end: r.end, text: format!("_verif_unused_{k}"), rule: "N19" });
+            }
+        }
+        visit::visit_expr_closure(self, c);
+    }
+}
+
 // ---------------------------------------------------------------- N8 format!
 
 struct FormatPass<'s> {
@@ -768,6 +790,16 @@ pub fn normalize(
         p.visit_file(&f);
         if !p.edits.is_empty() {
             bump(fired, "N18", 1);
+            text = apply_edits_all(&text, p.edits);
+        }
+    }
+    // N19
+    if !skip("N19") {
+        let f = parse(&text, "N18")?;
+        let mut p = WildClosureParamPass { edits: vec![] };
+        p.visit_file(&f);
+        if !p.edits.is_empty() {
+            bump(fired, "N19", p.edits.len());
             text = apply_edits_all(&text, p.edits);
         }
     }
